@@ -1021,7 +1021,7 @@ fn oracle_reg_col(ctx: &mut Ctx, prefix: &str, w: usize, col: usize, a: &[f64], 
 fn op_reg(em: &mut Em, form: usize, exact: bool, kind: &str, w: usize, p: usize, a: Vec<Vec<f64>>, b: Vec<Vec<f64>>, perm: Vec<usize>) {
     // a reversed view is summed by ndarray in memory order, i.e. backwards: the left-to-right model
     // agrees only up to rounding there, so that form is always compared with tolerance
-    let exact = exact && !(p == 1 && forms::REG1_FORM_NAMES[form].contains("reversed"));
+    let exact = exact && !(if p == 1 { forms::REG1_FORM_NAMES[form] } else { forms::REGM_FORM_NAMES[form] }).contains("reversed");
     let name = match (exact, form == 0) {
         (true, true) => "reg",
         (false, true) => "regt",
@@ -1184,7 +1184,7 @@ fn gen_reg_forms(em: &mut Em, rng: &mut Rng) {
                 // difference to the left-to-right model, amplified by the cancellation in `1 - q` of r2 /
                 // explained variance, can exceed the relative tolerance of `regtf` (seen: 1.8e-5, thorough
                 // seed 2); f32 with a non-trivial layout is covered by the strided form
-                let w = if single && forms::REG1_FORM_NAMES[form].contains("reversed") { 64 } else { w };
+                let w = if (if single { forms::REG1_FORM_NAMES[form] } else { forms::REGM_FORM_NAMES[form] }).contains("reversed") { 64 } else { w };
                 let wide = rng.chance(1, 4);
                 let p = if single { 1 } else { 2 + rng.below(if wide { 5 } else { 2 }) };
                 if r % 3 != 2 {
@@ -1575,7 +1575,7 @@ fn floors(em: &mut Em) {
         add(&[&format!("rocf:form={}", forms::BIN_FORM_NAMES[f])], 250);
     }
     add(&["logloss:"], 300);
-    for f in [0usize, 2, 3, 4, 5, 6, 7] {
+    for f in [0usize, 2, 3, 4, 5, 6, 7, 8, 9] {
         add(&[&format!("loglossf:form={}", forms::BIN_FORM_NAMES[f])], 80);
     }
     add(&["reg:lattice", ":f64:"], 400);
@@ -1591,8 +1591,11 @@ fn floors(em: &mut Em) {
         add(&[&format!("regtf:form={}", forms::REG1_FORM_NAMES[f])], if rev { 30 } else { 10 });
     }
     for f in 1..forms::REGM_FORMS {
-        add(&[&format!("regf:form={}", forms::REGM_FORM_NAMES[f])], 20);
-        add(&[&format!("regtf:form={}", forms::REGM_FORM_NAMES[f])], 10);
+        let rev = forms::REGM_FORM_NAMES[f].contains("reversed");
+        if !rev {
+            add(&[&format!("regf:form={}", forms::REGM_FORM_NAMES[f])], 20);
+        }
+        add(&[&format!("regtf:form={}", forms::REGM_FORM_NAMES[f])], if rev { 30 } else { 10 });
     }
     add(&["sil:", ":covered"], 300);
     add(&["sil:d=3+", ":covered"], 30);
